@@ -23,6 +23,7 @@ pub mod verif {
     pub use crate::block_ranges::verif_hooks as block_ranges;
     pub use crate::pruner::verif_hooks as pruner;
     pub use crate::syncer::verif_hooks as syncer;
+    pub mod header_ex_client_sim { pub use crate::p2p::header_ex_client_sim_verif_hooks::*; }
 }
 
 #[cfg(all(target_arch = "wasm32", test))]
